@@ -126,7 +126,7 @@ CLAIMED["C02"] = (
 CLAIMED["C12"] = (
     "structural rules on the id assignment and on every node constructor (embedded Rego object literals parsed with OPA's parser, trace-value templates instantiated and parsed), argument-identity rules on error(...) call templates, census of post-processing in the JSON encoder",
     "Decided: the id scheme parent_key / parent_index is applied to every typed node and is injective for the node constructors that exist (no numeric keys, at most one array-of-nodes key each); results are appended without gaps; both variants of error()/trace() carry all required keys; focusNode is the @id of a variable that the emitted code binds from the input graph; sourceShapeName is the validation name or `nested`; one dialect instance encodes one report; the JSON text is the encoder's output untouched.",
-    "encoding/json's validity and non-emptiness of messages/traces for degenerate profiles are not decided. " + TRUST,
+    "encoding/json's validity is trusted; non-emptiness of messages and traces is decided for the degenerate profiles found so far (empty message, connectives without operands), not for every profile. " + TRUST,
     "DESIGN.md section 3, C12",
 )
 
